@@ -1734,4 +1734,8 @@ mut("C05", "rewriter-reapplied-while-gate-holds", "R05-",
 
 mut("C16", "operator-after-quote-glued", "R16-5|parsers::parser_line::parse_line|operator-after-quote",
     "a ; or & right after a closing quote joins the quoted word again",
-    (P, """        if semi_ok && (c == ';' || c == '&') {""", """        if semi_ok && (c == ';' || c == '&') && false {"""))
+    (P, """        if semi_ok && (c == ';' || c == '&' || c == '>') {""", """        if semi_ok && c == '>' {"""))
+
+mut("C04", "redirect-after-quote-glued", "R04-11|parsers::parser_line::parse_line|redirect-after-quote",
+    "a > right after a closing quote joins the quoted word again",
+    (P, """        if semi_ok && (c == ';' || c == '&' || c == '>') {""", """        if semi_ok && (c == ';' || c == '&') {"""))
